@@ -141,11 +141,11 @@ structure Agree (e1 e2 : Env) (S : String) : Prop where
 private theorem mkTable_bare (env : Env) (parts : List String) (a : Option String) (hb : isBare parts = true) :
     mkTable env parts a =
       ⟨.table (defaultSchema env) (Ident.escapeS (parts.getLast?.getD "")),
-       some (Ident.escapeS (a.getD (Ident.escapeS (parts.getLast?.getD ""))))⟩ := by
+       some (match a with | some x => Ident.escapeS x | none => Ident.escapeS (parts.getLast?.getD ""))⟩ := by
   have hb' : ".".intercalate (parts.dropLast.map Ident.escapeS) = "" := by simpa [isBare] using hb
   unfold mkTable
   simp only [hb']
-  split <;> simp
+  split <;> simp <;> rfl
 
 private theorem mkTable_notBare (env env' : Env) (parts : List String) (a : Option String) (hb : isBare parts = false) :
     mkTable env parts a = mkTable env' parts a := by
